@@ -5,6 +5,8 @@ package sharding
 import (
 	corev1 "k8s.io/api/core/v1"
 	k8slisterv1 "k8s.io/client-go/listers/core/v1"
+
+	shardv1alpha1 "volcano.sh/apis/pkg/apis/shard/v1alpha1"
 )
 
 // VerifSchedulerConfigs converts parsed scheduler specs into the internal
@@ -25,4 +27,13 @@ func VerifSchedulerConfigs(cfg *ShardingConfig) []SchedulerConfig {
 func VerifListNodes(lister k8slisterv1.NodeLister) ([]*corev1.Node, error) {
 	sc := &ShardingController{nodeLister: lister}
 	return sc.listNodesFromCache()
+}
+
+// VerifAssignmentNeedsUpdate is applyAssignment's decision whether a freshly
+// calculated assignment replaces the NodesDesired a NodeShard currently publishes.
+func VerifAssignmentNeedsUpdate(published []string, desired []string) bool {
+	sc := &ShardingController{}
+	shard := &shardv1alpha1.NodeShard{}
+	shard.Spec.NodesDesired = published
+	return sc.assignmentNeedsUpdate(shard, &ShardAssignment{NodesDesired: desired})
 }
